@@ -9,7 +9,7 @@ Base == [classes |-> {"A"}, methods |-> {"pt", "n"}, consts |-> {<<"int", 1, 1>>
          not |-> FALSE, boolConst |-> FALSE, ifexp |-> FALSE, aggs |-> {}, first |-> FALSE,
          index |-> FALSE, math |-> {}, colls |-> {<<"A", "bk1">>}, select |-> TRUE, where |-> TRUE,
          selectmany |-> FALSE, range |-> FALSE, rows |-> {"seq"}, topmid |-> {},
-         topwhere |-> FALSE, evwhere |-> FALSE, rootnames |-> {}, start |-> "top", boolAsNum |-> FALSE, mindone |-> 0, singles |-> {}, userfns |-> {}, enums |-> FALSE, letcall |-> {}, must |-> {}, mustany |-> {}, nonnull |-> FALSE, letseq |-> {}]
+         topwhere |-> FALSE, evwhere |-> FALSE, rootnames |-> {}, start |-> "top", boolAsNum |-> FALSE, mindone |-> 0, singles |-> {}, userfns |-> {}, enums |-> FALSE, letcall |-> {}, must |-> {}, mustany |-> {}, nonnull |-> FALSE, letseq |-> {}, letfn |-> {}]
 
 \* C01 core: the LINQ operators and their compositions
 ProfCore == [Base EXCEPT !.classes = {"A", "T"}, !.methods = {"pt", "n", "trks", "vals"},
@@ -103,6 +103,13 @@ ProfUserFnE == [Base EXCEPT !.methods = {"pt"}, !.consts = {<<"int", 2, 1>>}, !.
 \* C11, fourth profile: the SAME method-style function applied to DIFFERENT receivers with identical arguments in one
 \* expression (j.f(2) - j.link().f(2)): every call must see its own receiver
 ProfUserFnM == [ProfUserFn EXCEPT !.methods = {"link"}, !.userfns = {"vp_meth"}, !.binops = {"-"}, !.must = {"Bin", "UserFn"}]
+
+\* C11, fifth profile: the value of a supplied function bound ONCE (a lambda applied on the spot) and used SEVERAL times, the
+\* first time inside conditionally executed code (an arm of a conditional, the second operand of and / or), again outside it:
+\* the code block must run where every use can see its result
+ProfUserFnLet == [Base EXCEPT !.methods = {"pt", "ok"}, !.consts = {<<"int", 0, 1>>}, !.binops = {"+"}, !.cmpops = {}, !.ifexp = TRUE,
+                    !.select = FALSE, !.where = FALSE, !.rows = {"bool"}, !.colls = {}, !.start = "perobj",
+                    !.letfn = {"vp_inc_res"}, !.must = {"Let", "If"}]
 
 \* C10: the declared-signature space: object by value / pointer / double pointer, collection pointer,
 \* smart references with 1 and 2 extra dereferences, a declared tree type, an enum (output, comparison, argument)
